@@ -9,6 +9,7 @@ from conda_content_trust import authentication as A, common as C, metadata_const
 
 from vlib import gen_pyvalues as GP, keys, ref_ed25519 as R4, ref_grammar as g
 from vlib.ref_canon import canon
+from vlib import cfgunit as _cfgunit
 from vlib.runner import Unit, Violation
 
 PROPERTY = "C19"
@@ -336,4 +337,7 @@ UNITS = [
         doc="key files written by the library / by hand load back as equivalent keys"),
     Unit("malformed", check_malformed, strategy=_malformed, quick=1500, thorough=40000,
          doc="malformed key encodings are rejected with TypeError/ValueError by from_bytes/from_hex"),
+    _cfgunit.unit_under_config(PROPERTY, 'derive_sign', exclude=()),
+    _cfgunit.unit_under_config(PROPERTY, 'malformed', exclude=()),
+    _cfgunit.unit_under_config(PROPERTY, 'conversions', exclude=()),
 ]
